@@ -39,7 +39,7 @@ from vf.sym import untraced
 _NS = {}
 exec(compile("def boom(msg):\n    raise ValueError(msg)\n", "<generated-no-source>", "exec"), _NS)
 
-EXC_KINDS = ["ValueError", "CliKitException", "MyCliError", "CodedError", "StrCodedError", "KeyboardInterrupt", "chained", "sourceless", "Weird"]
+EXC_KINDS = ["ValueError", "CliKitException", "MyCliError", "CodedError", "StrCodedError", "KeyboardInterrupt", "chained", "sourceless", "Weird", "near-multiline-string"]
 
 
 def _do_raise(kind, msg):
